@@ -231,8 +231,27 @@ func (lr *lifeRun) resetKeep(suite []reqSpec) {
 	lr.t.emit(map[string]any{"ev": "Reset", "keep": true})
 }
 
+// tryNew is cors.NewMiddleware under recover: a panic inside the library is C17's business, not the end of this run.
+func tryNew(cfg cors.Config) (m *cors.Middleware, err error) {
+	defer func() {
+		if p := recover(); p != nil {
+			m, err = nil, fmt.Errorf("panic: %v", p)
+		}
+	}()
+	return cors.NewMiddleware(cfg)
+}
+
+func tryReconf(m *cors.Middleware, cfg *cors.Config) (err error) {
+	defer func() {
+		if p := recover(); p != nil {
+			err = fmt.Errorf("panic: %v", p)
+		}
+	}()
+	return m.Reconfigure(cfg)
+}
+
 func (lr *lifeRun) newMW(id, cfgID string, cfg cors.Config) {
-	m, err := cors.NewMiddleware(cfg)
+	m, err := tryNew(cfg)
 	lr.t.emit(map[string]any{"ev": "New", "mw": id, "cfg": cfgID, "ok": err == nil, "nilmw": m == nil})
 	if err == nil {
 		lr.mws[id] = m
@@ -249,7 +268,7 @@ func (lr *lifeRun) zero(id string) {
 }
 
 func (lr *lifeRun) reconf(id, cfgID string, cfg *cors.Config) {
-	err := lr.mws[id].Reconfigure(cfg)
+	err := tryReconf(lr.mws[id], cfg)
 	lr.t.emit(map[string]any{"ev": "Reconf", "mw": id, "cfg": cfgID, "ok": err == nil})
 }
 
@@ -567,7 +586,12 @@ func lookAlikes(base *cors.Config) []*cors.Config {
 
 // buildVia returns a middleware configured with cfg and debug mode OFF, reached in one of the ways an application may get there;
 // by the documentation all of them are equivalent to NewMiddleware(cfg). nil if cfg is rejected.
-func buildVia(cfg cors.Config, k int) *cors.Middleware {
+func buildVia(cfg cors.Config, k int) (res *cors.Middleware) {
+	defer func() {
+		if p := recover(); p != nil {
+			res = nil // a panic inside the library is C17's business
+		}
+	}()
 	other := cors.Config{Origins: []string{"https://somewhere-else.example"}, RequestHeaders: []string{"x-other"}, Methods: []string{"PATCH"}}
 	var m *cors.Middleware
 	var err error
@@ -892,10 +916,10 @@ func cmdLife(args []string) {
 						from, to = tw, s
 					}
 					cf, ct := from.spell(rng), to.spell(rng)
-					if _, err := cors.NewMiddleware(*cf); err != nil {
+					if _, err := tryNew(*cf); err != nil {
 						continue
 					}
-					if _, err := cors.NewMiddleware(*ct); err != nil {
+					if _, err := tryNew(*ct); err != nil {
 						continue
 					}
 					ncases++
@@ -942,7 +966,7 @@ func cmdLife(args []string) {
 		for i := 0; i < *n; i++ {
 			s := randSem(rng)
 			c := s.spell(rng)
-			if _, err := cors.NewMiddleware(*c); err != nil {
+			if _, err := tryNew(*c); err != nil {
 				continue
 			}
 			rsems = append(rsems, s)
@@ -1058,7 +1082,7 @@ func cmdLife(args []string) {
 				}
 			}
 			c := s.spell(rng)
-			if _, err := cors.NewMiddleware(*c); err != nil {
+			if _, err := tryNew(*c); err != nil {
 				t.emit(map[string]any{"ev": "Rejected", "cfg": cfgJSON(c), "err": err.Error()})
 				ncases++
 				continue
@@ -1075,7 +1099,7 @@ func cmdLife(args []string) {
 			if p := lr.mws["m1"].Config(); p != nil {
 				c1 = *p
 			}
-			m2, err := cors.NewMiddleware(c1)
+			m2, err := tryNew(c1)
 			t.emit(map[string]any{"ev": "New", "mw": "m2", "cfg": "from", "from": "m1", "gen": 1, "ok": err == nil, "nilmw": m2 == nil,
 				"err": fmt.Sprint(err), "rendered": cfgJSON(&c1)})
 			if err == nil {
@@ -1101,7 +1125,7 @@ func cmdLife(args []string) {
 			// stability: m4 = New(m2.Config()) must render exactly what m2 renders
 			if m2 != nil {
 				c2 := *m2.Config()
-				m4, err := cors.NewMiddleware(c2)
+				m4, err := tryNew(c2)
 				t.emit(map[string]any{"ev": "New", "mw": "m4", "cfg": "from", "from": "m2", "gen": 2, "ok": err == nil, "nilmw": m4 == nil, "err": fmt.Sprint(err)})
 				if err == nil {
 					lr.mws["m4"] = m4
@@ -1133,7 +1157,7 @@ func cmdLife(args []string) {
 				}
 			}
 			c1 := s.spell(rng)
-			if _, err := cors.NewMiddleware(*c1); err != nil {
+			if _, err := tryNew(*c1); err != nil {
 				t.emit(map[string]any{"ev": "Rejected", "cfg": cfgJSON(c1), "err": err.Error()})
 				ncases++
 				continue
@@ -1174,7 +1198,7 @@ func cmdLife(args []string) {
 			var ids []string
 			for i, c := range twins {
 				id := fmt.Sprintf("t%d", i)
-				m, err := cors.NewMiddleware(*c)
+				m, err := tryNew(*c)
 				t.emit(map[string]any{"ev": "New", "mw": id, "cfg": "c", "ok": err == nil, "nilmw": m == nil, "twin": cfgJSON(c)})
 				if err == nil {
 					lr.mws[id] = m
@@ -1203,10 +1227,10 @@ func cmdLife(args []string) {
 				s1, s2 = randSem(rng), randSem(rng)
 			}
 			c1, c2 := s1.spell(rng), s2.spell(rng)
-			if _, err := cors.NewMiddleware(*c1); err != nil {
+			if _, err := tryNew(*c1); err != nil {
 				continue
 			}
-			if _, err := cors.NewMiddleware(*c2); err != nil {
+			if _, err := tryNew(*c2); err != nil {
 				continue
 			}
 			suite := probeSuite([]Sem{s1, s2})
